@@ -353,7 +353,14 @@ func runDeleteE2E(r *run, g *rng, base string) error {
 		// pull: a source directory that cannot be read (served through an fs.FS whose ReadDir fails)
 		if arr == "pull" && !ioErr && withDelete && i%2 == 0 {
 			for _, s := range srcNodes {
-				if s.typ == "d" {
+				// a directory the sender will actually read: neither it nor a parent is excluded
+				skip := false
+				for p := s.path; p != "." && p != ""; p = filepath.Dir(p) {
+					if refExcluded(rules, p) {
+						skip = true
+					}
+				}
+				if s.typ == "d" && !skip {
 					spec.FaultyDir = s.path
 					ioErr = true
 					// the unreadable directory's contents are not in the list
